@@ -192,6 +192,83 @@ def placement_program(kind, where):
     return [tk] + subs + [main]
 
 
+APPLIED_SRC = L.HDR + '''
+@move
+def pulse(i: int):
+    gate.global_rz(0.25)
+    return i
+
+@move
+def quiet(i: int):
+    return i + 1
+
+@move
+def mapped(n: int):
+    return ilist.map(pulse, ilist.range(n))
+
+@move
+def mapped_quiet(n: int):
+    return ilist.map(quiet, ilist.range(n))
+
+@move
+def each(n: int):
+    ilist.for_each(pulse, ilist.range(n))
+
+@move
+def folded(n: int):
+    def step(acc: int, i: int):
+        gate.global_rz(0.5)
+        return acc + i
+    return ilist.foldl(step, ilist.range(n), 0)
+
+@move
+def folded_right(n: int):
+    def step(i: int, acc: int):
+        gate.local_rz(0.5, spec.get_static_trap(zone_id="A"))
+        return acc + i + n
+    return ilist.foldr(step, ilist.range(n), 0)
+
+@move
+def scanned_quiet(n: int):
+    def step(acc: int, i: int):
+        return acc + i + n, i
+    return ilist.scan(step, ilist.range(n), 0)
+
+@move
+def nested_map(n: int):
+    def outer(i: int):
+        return ilist.map(pulse, ilist.range(i))
+    return ilist.map(outer, ilist.range(n))
+'''
+
+
+def applied_function_stream(ctx, spec, RuntimeAnalysis, move):
+    """device-visible statements reached only through a function handed to ilist.map / for_each / foldl / foldr / scan (a
+    subroutine or a closure), and quiet twins.  These programs are outside the Lean program language: real query against real
+    executions."""
+    mod = T.load_source(APPLIED_SRC, "c09a")
+    for name in ("mapped", "mapped_quiet", "each", "folded", "folded_right", "scanned_quiet", "nested_map"):
+        k = getattr(mod, name)
+        try:
+            ans = "yes" if RuntimeAnalysis(move).has_quantum_runtime(k) else "no"
+        except Exception:  # noqa: BLE001
+            ans = "refused"
+        acting = None
+        for n in (0, 1, 3):
+            r = EV.run_with_events(k, spec, (n,))
+            if r.events:
+                acting = (n, EV.canon_events(r.events)[:200])
+                break
+        ctx.count("applied_function_kernels")
+        case = {"source": APPLIED_SRC[len(L.HDR):], "kernel": name, "answer": ans}
+        if ans == "no" and acting is not None:
+            ctx.fail(dict(case, args=[acting[0]]),
+                     f"has_quantum_runtime answered False, yet {name}({acting[0]}) performs {acting[1]} (through a function handed to "
+                     f"an ilist combinator)", key="F27-applied-function-not-followed")
+        if name.endswith("quiet") and ans != "no":
+            ctx.fail(case, f"no device-visible statement and no dynamic call anywhere in the call graph of {name}, yet the query answered {ans}")
+
+
 def run(ctx):
     from bloqade.shuttle.analysis.runtime import RuntimeAnalysis
     from bloqade.shuttle.prelude import move
@@ -245,6 +322,7 @@ def run(ctx):
         ctx.count("syntactically_quiet" if quiet else "has_effect_statement")
     if ctx.counts.get("compile_fail", 0) > 0.3 * n_prog:
         raise HarnessFault("generator degenerate: >30% of generated programs do not compile")
+    applied_function_stream(ctx, spec, RuntimeAnalysis, move)
     model = ctx.driver(lines)
     ctx.traces_validated = len(rows)
     for (case, ans, acting, quiet), m in zip(rows, model):
